@@ -56,13 +56,114 @@ fn to_primitive_number(value: &Value) -> Option<f64> {
     }
 }
 
-pub fn str_to_number<S: AsRef<str>>(string: S) -> Option<f64> {
-    let s = string.as_ref();
-    if s == "" {
-        Some(0.0)
-    } else {
-        f64::from_str(s).ok()
+/// White space and line terminators as defined by ECMAScript
+fn is_js_whitespace(c: char) -> bool {
+    match c {
+        '\u{9}' | '\u{A}' | '\u{B}' | '\u{C}' | '\u{D}' | ' ' | '\u{A0}' | '\u{1680}'
+        | '\u{2000}'..='\u{200A}' | '\u{2028}' | '\u{2029}' | '\u{202F}' | '\u{205F}'
+        | '\u{3000}' | '\u{FEFF}' => true,
+        _ => false,
     }
+}
+
+/// Length in bytes of the longest prefix that is an (unsigned) decimal
+/// literal: digits, an optional fraction and an optional, complete exponent.
+fn decimal_literal_len(s: &str) -> usize {
+    let bytes = s.as_bytes();
+    let digits = |from: usize| {
+        bytes[from..]
+            .iter()
+            .take_while(|b| b.is_ascii_digit())
+            .count()
+    };
+    let int_len = digits(0);
+    let mut end = int_len;
+    let mut frac_len = 0;
+    if bytes.get(end) == Some(&b'.') {
+        frac_len = digits(end + 1);
+        if int_len > 0 || frac_len > 0 {
+            end += 1 + frac_len;
+        }
+    }
+    if int_len == 0 && frac_len == 0 {
+        return 0;
+    }
+    if let Some(b'e') | Some(b'E') = bytes.get(end) {
+        let mut exp = end + 1;
+        if let Some(b'+') | Some(b'-') = bytes.get(exp) {
+            exp += 1;
+        }
+        let exp_len = digits(exp);
+        if exp_len > 0 {
+            end = exp + exp_len;
+        }
+    }
+    end
+}
+
+/// The value of a non-empty run of digits in a power-of-two radix, rounded
+/// to the nearest double. Returns None if a character is not such a digit.
+fn radix_digits_to_number(digits: &str, radix: u32) -> Option<f64> {
+    if digits == "" {
+        return None;
+    }
+    let bits_per_digit = radix.trailing_zeros();
+    // The leading 64 significant bits, how many bits followed them, and
+    // whether any of those was set (enough to round correctly).
+    let mut leading: u64 = 0;
+    let mut following: i32 = 0;
+    let mut sticky = false;
+    for c in digits.chars() {
+        let digit = c.to_digit(radix)?;
+        for shift in (0..bits_per_digit).rev() {
+            let bit = ((digit >> shift) & 1) as u64;
+            if leading >> 63 == 0 {
+                leading = (leading << 1) | bit;
+            } else {
+                following = following.saturating_add(1);
+                sticky = sticky || bit == 1;
+            }
+        }
+    }
+    if sticky {
+        leading |= 1;
+    }
+    Some(leading as f64 * 2f64.powi(following))
+}
+
+/// Convert a string to a number the way ToNumber does for strings: white
+/// space around it is ignored, the empty string is 0, and the rest must be,
+/// in its entirety, a decimal literal, a signed `Infinity`, or an unsigned
+/// hexadecimal, octal or binary integer literal. Returns None for NaN.
+pub fn str_to_number<S: AsRef<str>>(string: S) -> Option<f64> {
+    let s = string.as_ref().trim_matches(is_js_whitespace);
+    if s == "" {
+        return Some(0.0);
+    }
+    if s.len() >= 2 && s.is_char_boundary(2) {
+        let radix = match &s[..2] {
+            "0x" | "0X" => Some(16),
+            "0o" | "0O" => Some(8),
+            "0b" | "0B" => Some(2),
+            _ => None,
+        };
+        if let Some(radix) = radix {
+            return radix_digits_to_number(&s[2..], radix);
+        }
+    }
+    let (negative, unsigned) = match s.as_bytes()[0] {
+        b'-' => (true, &s[1..]),
+        b'+' => (false, &s[1..]),
+        _ => (false, s),
+    };
+    let magnitude = if unsigned == "Infinity" {
+        f64::INFINITY
+    } else if unsigned != "" && decimal_literal_len(unsigned) == unsigned.len() {
+        f64::from_str(unsigned).ok()?
+    } else {
+        return None;
+    };
+    Some(if negative { -magnitude } else { magnitude })
 }
 
 enum Primitive {
